@@ -31,11 +31,12 @@ type Failure struct {
 
 // Result is what a check function reports for one case.
 type Result struct {
-	Classes    []string
-	NonTrivial bool
-	Failures   []Failure
-	Excluded   []string // don't-care / upstream / precondition labels (counted)
-	Evals      int      // number of oracle evaluations inside the case (default 1)
+	Classes       []string
+	NonTrivial    bool
+	Failures      []Failure
+	Excluded      []string
+	panicReported bool // don't-care / upstream / precondition labels (counted)
+	Evals         int  // number of oracle evaluations inside the case (default 1)
 }
 
 func (r *Result) Fail(sig, format string, args ...interface{}) {
@@ -51,7 +52,47 @@ func (r *Result) Class(c string) {
 	r.Classes = append(r.Classes, c)
 }
 
-func (r *Result) Exclude(c string) { r.Excluded = append(r.Excluded, c) }
+func (r *Result) Exclude(c string) {
+	r.Excluded = append(r.Excluded, c)
+	if c == "library-panic(C01)" && !r.panicReported {
+		// The verdict on this property cannot be given for the case, and a library panic is a
+		// violation in its own right (of C01): it is never dropped silently, whichever
+		// check's generator happened to reach it.
+		r.panicReported = true
+		if lp := lastPanic(); lp != nil {
+			r.Fail("library-panic:"+lp.Sig, "the library panicked while this property was being checked (this violates C01, and no verdict is possible here): %s\n%s", lp.Value, clipStack(lp.Stack))
+		} else {
+			r.Fail("library-panic", "the library panicked while this property was being checked (this violates C01)")
+		}
+	}
+}
+
+var (
+	panicMu   sync.Mutex
+	panicLast *PanicInfo
+)
+
+func notePanic(pi *PanicInfo) {
+	panicMu.Lock()
+	panicLast = pi
+	panicMu.Unlock()
+}
+
+func lastPanic() *PanicInfo {
+	panicMu.Lock()
+	defer panicMu.Unlock()
+	return panicLast
+}
+
+func clipStack(st string) string {
+	if i := strings.Index(st, "github.com/hashicorp/hcl-lang/"); i > 0 {
+		st = st[i:]
+	}
+	if len(st) > 1800 {
+		st = st[:1800]
+	}
+	return st
+}
 
 // ---------------------------------------------------------------------------
 // known findings
